@@ -721,10 +721,30 @@ class Exec(Interp):
             fr.locals[i + 1] = self.alloc(st, a)
         outs = []
         work = [(st, 0, fr.locals, (), 0)]
+        heads = body.loop_heads() if body.has_loop() else ()
+        inv = {}        # loop head -> [state, locals, rounds]: the abstract invariant reached so far (joined over every arrival)
         while work:
             s, bb, locs, trail, start = work.pop()
-            if start == 0 and trail.count(bb) >= 2:
-                # a back edge taken twice on one path: loops are not summarised (no widening); reported, not guessed
+            if start == 0 and bb in heads:
+                if bb not in inv:
+                    inv[bb] = [s.copy(), dict(locs), 0]
+                else:
+                    s0, l0, rounds = inv[bb]
+                    try:
+                        sj, lj = self.join_frames(s0, l0, s, locs)
+                    except RecursionError:
+                        sj = None
+                    if sj is None or rounds >= 10:
+                        self.undecided_loops[body.id] = self.undecided_loops.get(body.id, 0) + 1
+                        continue
+                    if self.frame_shape(sj, lj) == self.frame_shape(s0, l0):
+                        continue                    # this arrival is covered by the invariant already explored from this head
+                    if rounds >= 3:
+                        self.widen_frame(sj, lj, s0, l0, body)
+                    inv[bb] = [sj.copy(), dict(lj), rounds + 1]
+                    s, locs = sj, dict(lj)
+                    trail = ()
+            elif start == 0 and trail.count(bb) >= 12:
                 self.undecided_loops[body.id] = self.undecided_loops.get(body.id, 0) + 1
                 continue
             self.steps += 1
@@ -744,6 +764,85 @@ class Exec(Interp):
             if len(work) > 4000:
                 raise Budget('too many pending paths in %s' % body.id)
         return outs
+
+    # ---- loops: join / convergence / widening of whole frames ---------------------------------------------------
+    def join_frames(self, s0, l0, s1, l1):
+        keys = sorted(k for k in l0 if k in l1 and isinstance(k, int))
+        v0 = ('tuple', tuple(l0[k] for k in keys))
+        v1 = ('tuple', tuple(l1[k] for k in keys))
+        out, rv = self.join2(s0, v0, s1, v1)
+        lj = dict(l1)
+        lj.update({k: v for k, v in l0.items() if k not in lj})
+        if rv[0] != 'tuple':
+            return None, None
+        for k, c in zip(keys, rv[1]):
+            lj[k] = c
+        return out, lj
+
+    def deep_shape(self, st, v, depth=0, seen=None):
+        if seen is None:
+            seen = set()
+        if depth > 7 or not isinstance(v, tuple) or not v:
+            return ('?',)
+        k = v[0]
+        if k == 'ref':
+            if v[1] in seen:
+                return ('ref', 'cycle')
+            seen = seen | {v[1]}
+            return ('ref', self.deep_shape(st, st.cells.get(v[1], ('top',)), depth + 1, seen))
+        if k == 'tuple':
+            return ('tuple',) + tuple(self.deep_shape(st, st.cells.get(c, ('top',)), depth + 1, seen) for c in v[1])
+        if k == 'adt':
+            return ('adt', v[1], tuple(sorted(v[2])) if v[2] else None) + tuple(
+                (vn, fn, self.deep_shape(st, st.cells.get(c, ('top',)), depth + 1, seen)) for vn in sorted(v[3]) for fn, c in sorted(v[3][vn].items()))
+        if k == 'int':
+            return ('int', v[1]) + tuple(self.rng(st, v[2])) + (tuple(sorted(X for X, strict in self.upper_set(st, v[2]).items() if strict and X != v[2])[:6]),)
+        if k == 'top':
+            return ('top',) + tuple(v[1:2])
+        return self.shape_of(st, v, depth)
+
+    def frame_shape(self, st, locs):
+        return tuple((k, self.deep_shape(st, st.cells.get(c, ('top',)))) for k, c in sorted((k, c) for k, c in locs.items() if isinstance(k, int)))
+
+    def widen_frame(self, sj, lj, s0, l0, body):
+        """everything that still changes after three rounds is forgotten (the top of its type): the ascending chain is cut"""
+        seen = set()
+
+        def widen_cell(c, c0, depth=0):
+            if c in seen or depth > 8:
+                return
+            seen.add(c)
+            v = sj.cells.get(c)
+            v0 = s0.cells.get(c0) if c0 is not None else None
+            if v is None:
+                return
+            same = v0 is not None and self.deep_shape(sj, v) == self.deep_shape(s0, v0)
+            if same:
+                return
+            k = v[0]
+            if k == 'int':
+                sj.cells[c] = self.mk_int(sj, v[1])
+            elif k == 'float':
+                sj.cells[c] = ('float', -INF, INF, True)
+            elif k == 'bool':
+                sj.cells[c] = self.mk_bool(sj)
+            elif k == 'buf':
+                sj.cells[c] = ('buf', self.mk_int(sj, 'usize')[2])
+            elif k == 'ref':
+                widen_cell(v[1], v0[1] if v0 is not None and v0[0] == 'ref' else None, depth + 1)
+            elif k == 'tuple':
+                for i, cc in enumerate(v[1]):
+                    widen_cell(cc, v0[1][i] if v0 is not None and v0[0] == 'tuple' and i < len(v0[1]) else None, depth + 1)
+            elif k == 'adt':
+                if v0 is None or v0[0] != 'adt' or v0[2] != v[2]:
+                    sj.cells[c] = ('adt', v[1], None, v[3])
+                for vn, fl in v[3].items():
+                    for fn, cc in fl.items():
+                        c00 = v0[3].get(vn, {}).get(fn) if v0 is not None and v0[0] == 'adt' else None
+                        widen_cell(cc, c00, depth + 1)
+        for k, c in lj.items():
+            if isinstance(k, int):
+                widen_cell(c, l0.get(k))
 
     def run_block(self, st, fr, bb, chain, depth, outs, start=0):
         body = fr.body
@@ -1074,6 +1173,28 @@ class Exec(Interp):
         tr = c.get('trait') or ''
         A = args
         dv = lambda v: self.deref_val(st, v)
+        if name == 'into_iter' and A and (A[0][0] == 'top' and len(A[0]) >= 4 or A[0][0] == 'adt' and A[0][1].endswith(('::WindowIterator', '::ReversedWindowIterator'))):
+            return [(st, A[0])]         # IntoIterator for an iterator is the identity
+        if name == 'next' and 'Iterator' in (tr or d) and A and A[0][0] == 'ref':
+            itv = st.cells.get(A[0][1])
+            if itv is not None and itv[0] == 'top' and len(itv) >= 4:
+                # next() of a length-preserving adaptor chain over a window iterator: None, or Some(item) whose enumerate index is < n
+                nvid, en = itv[2], itv[3]
+                outs_ = []
+                resv = self.dest_top(st, fr, t)
+                if resv[0] == 'adt' and 'Some' in resv[3]:
+                    s_some = st.copy()
+                    item_c = resv[3]['Some']['0']
+                    item = s_some.cells.get(item_c)
+                    if en and item is not None and item[0] == 'tuple':
+                        hi = self.rng(s_some, nvid)[1]
+                        idx = self.mk_int(s_some, 'usize', 0, max(hi - 1, 0))
+                        s_some.rel.add(('lt', idx[2], nvid))
+                        s_some.cells[item[1][0]] = idx
+                    if self.rng(st, nvid)[1] >= 1:
+                        outs_.append((s_some, ('adt', resv[1], frozenset(['Some']), resv[3])))
+                    outs_.append((st.copy(), ('adt', resv[1], frozenset(['None']), resv[3])))
+                    return outs_
         if d.startswith('core::fmt::') or d.startswith('std::fmt::') or d.startswith('alloc::fmt::') or d == 'std::fmt::format':
             if name == 'from_str' and 'Arguments' in d and A:
                 v = dv(A[0])
